@@ -253,6 +253,12 @@ func (l *decoyLeaf) MarshalJSON() ([]byte, error) { return []byte(`"decoy:Marsha
 
 var hashers = map[int]*merkle.Hasher{}
 
+// the root returned for the previous case, as returned (same backing array) and as a private copy
+var (
+	keptRoot, keptRootCopy []byte
+	keptRootWhat           string
+)
+
 // name of the sub-check in progress (for reports that end the process)
 var curSub = "random-trees"
 
@@ -345,6 +351,14 @@ func checkTree(c treeCase) (h.Info, error) {
 	want := refRoot(hf, raw)
 	if !bytes.Equal(got, want) {
 		return info, fmt.Errorf("Hash of %d leaves with %v = %x, bottom-up reference %x", n, hf, got, want)
+	}
+	// roots handed out by earlier calls (any Hasher, any leaf count) belong to their callers: the root of the
+	// previous case must still read the same now that this case has hashed its leaves
+	if keptRoot != nil && !bytes.Equal(keptRoot, keptRootCopy) {
+		return info, fmt.Errorf("the root returned for an earlier tree (%s) read %x when it was returned and reads %x after a later Hash call of %d leaves", keptRootWhat, keptRootCopy, keptRoot, n)
+	}
+	if fresh, err := hasher.Hash(data); err == nil {
+		keptRoot, keptRootCopy, keptRootWhat = fresh, append([]byte{}, fresh...), fmt.Sprintf("%d leaves, %v", n, hf)
 	}
 	if n == 0 && !bytes.Equal(got, hasher.EmptyRoot()) {
 		return info, fmt.Errorf("Hash(nil) != EmptyRoot()")
